@@ -342,7 +342,8 @@ def fault_signature(v):
 
 
 C05_FAULT_WHATS = ('ctx-hang', 'ctx-not-prompt', 'sent-with-done-context', 'done-context-not-reported')
-TIMING_WHATS = ('ctx-hang', 'ctx-not-prompt', 'hang-after-break', 'hang-after-close')
+TIMING_WHATS = ('ctx-hang', 'ctx-not-prompt', 'hang-after-break', 'hang-after-close',
+                'error-without-cause')   # (a keep-alive ping that times out on an overloaded machine breaks the connection by itself)
 
 
 def _drive_fault(ctx, binp, cases, queue, d, tag, par, absorb=True):
